@@ -42,11 +42,12 @@ func (b *BasicAuth) doAuth(ctx context.Context) error {
 	if !ok {
 		return types.ErrInvaildGRPCRequestMeta
 	}
-	passwords, ok := meta[b.username]
-	if !ok {
+	// metadata keys are lower-cased on the wire, Get normalizes the configured username the same way
+	passwords := meta.Get(b.username)
+	if len(passwords) < 1 {
 		return types.ErrInvaildGRPCUsername
 	}
-	if len(passwords) < 1 || passwords[0] != b.password {
+	if passwords[0] != b.password {
 		return types.ErrInvaildGRPCPassword
 	}
 	return nil
